@@ -56,12 +56,14 @@ const (
 	OpF32to64
 	OpSIToF // k = float width; operand any int width
 	OpUIToF
-	OpFToSI // k = int width; operand float bits; only defined in range
+	OpFToSI // result width = int width; operand float bits; only defined in range (callers guard)
+	OpFToUI
 	OpFAdd
 	OpFSub
 	OpFMul
 	OpFDiv
 	OpFNeg
+	OpFRound // round to integral: k = 0 toward zero (math.Trunc), 1 down (Floor), 2 up (Ceil)
 )
 
 type Term struct {
@@ -104,10 +106,10 @@ type termKey struct {
 
 // TermStore is the per-job hash-consing table.
 type TermStore struct {
-	tab    map[termKey]*Term
-	vars   map[string]*Term
-	varSeq []*Term
-	nextID int32
+	tab     map[termKey]*Term
+	vars    map[string]*Term
+	varSeq  []*Term
+	nextID  int32
 	supp    map[int32][]int32
 	varByID map[int32]*Term
 }
@@ -877,6 +879,40 @@ func (s *TermStore) FArith(op Op, x, y *Term) *Term {
 	return s.mk(op, x.w, x, y, nil, 0)
 }
 
+// FToI converts a float to an integer of width w by truncation; the result is only meaningful
+// when the truncated value is representable (callers branch on the range first).
+func (s *TermStore) FToI(x *Term, w int, signed bool) *Term {
+	if x.IsConst() {
+		f := fval(x.k, x.w)
+		if signed {
+			return Const(w, uint64(int64(f)))
+		}
+		return Const(w, uint64(f))
+	}
+	op := OpFToUI
+	if signed {
+		op = OpFToSI
+	}
+	return s.mk(op, uint8(w), x, nil, nil, 0)
+}
+
+// FRound rounds a float to an integral value (mode 0 Trunc, 1 Floor, 2 Ceil).
+func (s *TermStore) FRound(x *Term, mode int) *Term {
+	if x.IsConst() {
+		f := fval(x.k, x.w)
+		switch mode {
+		case 0:
+			f = math.Trunc(f)
+		case 1:
+			f = math.Floor(f)
+		default:
+			f = math.Ceil(f)
+		}
+		return Const(int(x.w), fbits(f, x.w))
+	}
+	return s.mk(OpFRound, x.w, x, nil, nil, uint64(mode))
+}
+
 func (s *TermStore) FNeg(x *Term) *Term {
 	sign := uint64(1) << (x.w - 1)
 	return s.Bin(OpXor, x, Const(int(x.w), sign))
@@ -1004,6 +1040,12 @@ func evalOp(t *Term, x, y uint64) uint64 {
 	case OpFAdd, OpFSub, OpFMul, OpFDiv:
 		r := (&TermStore{}).FArith(t.op, Const(int(t.w), x), Const(int(t.w), y))
 		return r.k
+	case OpFRound:
+		return (&TermStore{}).FRound(Const(int(t.w), x), int(t.k)).k
+	case OpFToSI:
+		return uint64(int64(fval(x, t.a.w))) & mask(t.w)
+	case OpFToUI:
+		return uint64(fval(x, t.a.w)) & mask(t.w)
 	}
 	panic(fmt.Sprintf("eval: unhandled op %d", t.op))
 }
@@ -1052,7 +1094,7 @@ func fpSort(w uint8) string {
 // so that chains of FP operations do not round-trip through fp.to_ieee_bv.
 func fpProducing(t *Term) bool {
 	switch t.op {
-	case OpF64to32, OpF32to64, OpSIToF, OpUIToF, OpFAdd, OpFSub, OpFMul, OpFDiv:
+	case OpF64to32, OpF32to64, OpSIToF, OpUIToF, OpFAdd, OpFSub, OpFMul, OpFDiv, OpFRound:
 		return true
 	}
 	return false
@@ -1079,6 +1121,8 @@ func fpBodySMT(t *Term) string {
 	case OpFAdd, OpFSub, OpFMul, OpFDiv:
 		n := map[Op]string{OpFAdd: "fp.add", OpFSub: "fp.sub", OpFMul: "fp.mul", OpFDiv: "fp.div"}[t.op]
 		return fmt.Sprintf("(%s RNE %s %s)", n, toFP(t.a), toFP(t.b))
+	case OpFRound:
+		return fmt.Sprintf("(fp.roundToIntegral %s %s)", []string{"RTZ", "RTN", "RTP"}[t.k], toFP(t.a))
 	}
 	panic("fpBodySMT")
 }
@@ -1132,6 +1176,13 @@ func bodySMT(t *Term) string {
 		return fmt.Sprintf("(ite (fp.isNaN %s) %s (fp.to_ieee_bv t%df))", toFP(t.a), nan, t.id)
 	case OpSIToF, OpUIToF, OpFAdd, OpFSub, OpFMul, OpFDiv:
 		return fmt.Sprintf("(fp.to_ieee_bv t%df)", t.id)
+	case OpFToSI:
+		return fmt.Sprintf("((_ fp.to_sbv %d) RTZ %s)", t.w, toFP(t.a))
+	case OpFToUI:
+		return fmt.Sprintf("((_ fp.to_ubv %d) RTZ %s)", t.w, toFP(t.a))
+	case OpFRound:
+		// a NaN operand keeps its bit pattern
+		return fmt.Sprintf("(ite (fp.isNaN %s) %s (fp.to_ieee_bv t%df))", toFP(t.a), ref(t.a), t.id)
 	}
 	panic(fmt.Sprintf("bodySMT: unhandled op %d", t.op))
 }
